@@ -382,4 +382,13 @@ func runC10(r *report.Report) {
 		r.AddExploration(cf.name, "history", fmt.Sprintf("all broker scripts of depth %d over %d packet ids, qos %v, announce-on-publish %v, rejecting callback %v, client write faults %v, delay bound %d", cf.p.Depth, cf.p.IDs, cf.p.QOS, cf.p.Early, cf.p.Reject, cf.p.Faults, cf.bound), st,
 			"one execution = one broker script incl. the callback's answers; clauses at every quiescence; non-trivial = fault, retransmission, resume and rejection events (counted)", "fault", "retransmission", "resume", "rejected")
 	}
+	// the closed system: this client against the real broker (package h/e2e) - also the conformance check of the scripted broker above
+	de := 5
+	if r.Tier == "thorough" {
+		de = 7
+	}
+	st := explore.Explore(explore.Config{Harness: "E2E.hist", Params: fmt.Sprintf(`{"Depth":%d,"QOS":[1,2],"Faults":true}`, de), Bound: 0, Workers: report.Workers(), Deadline: r.Deadline(),
+		OnlyClauses: []string{"qos2-exactly-once", "qos1-at-least-once", "nothing-invented", "setup"}})
+	r.AddExploration("end-to-end", "history", fmt.Sprintf("real client library (publisher, subscriber) <-> real broker over codec pipes: all histories of depth %d over {publish QoS 1/2, drop / write failure / broker write failure on either connection, reconnect with the same session}, then both sides reconnect", de), st,
+		"at the subscribing application's callback: every QoS 2 message at most once, and exactly once / at least once (QoS 1) if Client.Publish accepted it; nothing arrives that was not published; non-trivial = histories with a publish / with a fault", "published", "fault")
 }
